@@ -14,7 +14,7 @@ delivered at a symbolic point *inside* the operation.
 import bisect
 from typing import List
 import billiard.heap as bh
-from harness.hbase import fail, tier, Prune, PART, NPART, realize
+from harness.hbase import fail, tier, Prune, PART, NPART, realize, pick, NDCode, CODEMAX, THOROUGH
 
 PAGE = 64
 UMAX = tier(5, 9)           # arena size in units of 8 bytes
@@ -32,6 +32,12 @@ class FakeArena:
 
     def __repr__(self):
         return 'A%d' % self.id
+
+    def __hash__(self):
+        return self.id            # deterministic across the re-executions of a path (the default hash is the address)
+
+    def __eq__(self, other):
+        return self is other
 
 
 class _FakeMmap:
@@ -124,7 +130,6 @@ SHAPES = [(True, True, True), (True, True, False), (True, False, True), (False, 
 
 
 def _prestate(u1, u2, u3, shape, second):
-    u1, u2, u3 = realize(u1), realize(u2), realize(u3)
     cuts = [8 * u1, 8 * (u1 + u2), 8 * (u1 + u2 + u3)]
     spec = [(cuts, list(shape))]
     if second:
@@ -166,8 +171,6 @@ def _malloc_step(u1, u2, u3, size, gc_at, gc_who, pend, want):
     if inv(h) is not None:
         raise AssertionError('harness: pre-state violates the invariant')
     live = [b for b, l in blocks if l]
-    gc_who = realize(gc_who)
-    pend = realize(pend)
     victim = live[gc_who] if 0 <= gc_who < len(live) else None
     if 0 <= pend < len(live) and pend != gc_who:
         h._pending_free_blocks.append(live[pend])       # a free that found the lock taken earlier
@@ -208,8 +211,6 @@ def _free_step(u1, u2, u3, who, gc_at, gc_who, locked, want):
     second = (PART // 5) % 2 == 1
     h, blocks = _prestate(u1, u2, u3, shape, second)
     live = [b for b, l in blocks if l]
-    who = realize(who)
-    gc_who = realize(gc_who)
     if not (0 <= who < len(live)):
         raise Prune()
     target = live[who]
@@ -259,67 +260,99 @@ def _free_step(u1, u2, u3, who, gc_at, gc_who, locked, want):
     return True
 
 
-def _pre(u1, u2, u3):
-    return 1 <= u1 and 1 <= u2 and 1 <= u3 and u1 + u2 + u3 <= UMAX
+COMBOS = [(a, b, c) for a in range(1, UMAX - 1) for b in range(1, UMAX - 1) for c in range(1, UMAX - 1) if a + b + c <= UMAX]
+GCS = [(0, -1, -1), (0, -1, 0), (0, -1, 1)] + [(at, who, -1) for at in (1, 2, 3) for who in (0, 1)]
+# (gc_at, gc_who, pend): nothing / a block already on the pending list / a GC free inside the operation at call 1..3, victim 0..1
 
 
-def _gc(gc_at, gc_who, pend):
-    # either a GC-triggered free inside the operation (at call 1..3 of _malloc/_free/_absorb, victim = live block 0 or 1),
-    # or a block already waiting on the pending list, or neither
-    if gc_who == -1:
-        return gc_at == 0 and -1 <= pend <= 1
-    return 1 <= gc_at <= 3 and 0 <= gc_who <= 1 and pend == -1
+def _combo(nd):
+    n = len(COMBOS)
+    if n <= 16:
+        return COMBOS[nd.draw(0, n - 1)]
+    k = nd.draw(0, 15) + 16 * nd.draw(0, (n - 1) // 16)
+    if k >= n:
+        raise Prune()
+    return COMBOS[k]
 
 
-def h_malloc(u1: int, u2: int, u3: int, size: int, gc_at: int, gc_who: int, pend: int) -> bool:
+def h_malloc(code: int, size: int) -> bool:
     """
-    pre: _pre(u1, u2, u3) and 0 <= size <= SMAX and _gc(gc_at, gc_who, pend)
+    pre: 0 <= code < CODEMAX and 0 <= size <= SMAX
     post: _
     """
     try:
-        return _malloc_step(u1, u2, u3, size, gc_at, gc_who, pend, None)
+        nd = NDCode(code)
+        g = GCS[nd.draw(0, len(GCS) - 1)]
+        u = _combo(nd)
+        return _malloc_step(u[0], u[1], u[2], size, g[0], g[1], g[2], None)
     except Prune:
         return True
 
 
-def h_malloc_twin(u1: int, u2: int, u3: int, size: int, gc_at: int, gc_who: int, pend: int) -> bool:
+def h_malloc_twin(code: int, size: int) -> bool:
     """
-    pre: _pre(u1, u2, u3) and 0 <= size <= SMAX and _gc(gc_at, gc_who, pend)
+    pre: 0 <= code < CODEMAX and 0 <= size <= SMAX
     post: _
     """
     try:
-        return _malloc_step(u1, u2, u3, size, gc_at, gc_who, pend, 'gc')
+        nd = NDCode(code)
+        g = GCS[nd.draw(0, len(GCS) - 1)]
+        u = _combo(nd)
+        return _malloc_step(u[0], u[1], u[2], size, g[0], g[1], g[2], 'gc')
     except Prune:
         return True
 
 
-def h_free(u1: int, u2: int, u3: int, who: int, gc_at: int, gc_who: int, locked: bool) -> bool:
+def h_free(code: int) -> bool:
     """
-    pre: _pre(u1, u2, u3) and 0 <= who <= 2 and _gc(gc_at, gc_who, -1)
+    pre: 0 <= code < CODEMAX
     post: _
     """
     try:
-        return _free_step(u1, u2, u3, who, gc_at, gc_who, locked, None)
+        nd = NDCode(code)
+        g = GCS[nd.draw(0, len(GCS) - 1)]
+        if g[2] != -1:
+            raise Prune()
+        who = nd.draw(0, 2)
+        locked = nd.flag()
+        u = _combo(nd)
+        return _free_step(u[0], u[1], u[2], who, g[0], g[1], locked, None)
     except Prune:
         return True
 
 
-def h_free_twin(u1: int, u2: int, u3: int, who: int, gc_at: int, gc_who: int, locked: bool) -> bool:
+def h_free_twin(code: int) -> bool:
     """
-    pre: _pre(u1, u2, u3) and 0 <= who <= 2 and _gc(gc_at, gc_who, -1)
+    pre: 0 <= code < CODEMAX
     post: _
     """
     try:
-        return _free_step(u1, u2, u3, who, gc_at, gc_who, locked, 'locked')
+        nd = NDCode(code)
+        g = GCS[nd.draw(0, len(GCS) - 1)]
+        if g[2] != -1:
+            raise Prune()
+        who = nd.draw(0, 2)
+        locked = nd.flag()
+        u = _combo(nd)
+        return _free_step(u[0], u[1], u[2], who, g[0], g[1], locked, 'locked')
     except Prune:
         return True
 
 
-def h_history(s0: int, s1: int, s2: int, f0: int, f1: int) -> bool:
+SIZES = (0, 1, 8, 25, 64, 65) if THOROUGH else (0, 9, 24, 56, 65)
+
+
+def h_history(code: int) -> bool:
     """
-    pre: 0 <= s0 <= 80 and 0 <= s1 <= 80 and 0 <= s2 <= 80 and 0 <= f0 <= 1 and 0 <= f1 <= 2
+    pre: 0 <= code < CODEMAX
     post: _
     """
+    nd = NDCode(code)
+    f0 = nd.draw(0, 1)
+    f1 = nd.draw(0, 2)
+    s0 = SIZES[nd.draw(0, len(SIZES) - 1)]
+    s1 = SIZES[nd.draw(0, len(SIZES) - 1)]
+    s2 = SIZES[nd.draw(0, len(SIZES) - 1)]
     install()
     h = bh.Heap(PAGE)
     if inv(h) is not None:
@@ -331,7 +364,6 @@ def h_history(s0: int, s1: int, s2: int, f0: int, f1: int) -> bool:
     bad = inv(h)
     if bad:
         return fail('C14:history:' + bad)
-    f0 = realize(f0)
     b, _ = live.pop(f0)
     h.free(b)
     bad = inv(h)
@@ -339,7 +371,6 @@ def h_history(s0: int, s1: int, s2: int, f0: int, f1: int) -> bool:
         return fail('C14:history:' + bad)
     b = h.malloc(s2)
     live.append((b, s2))
-    f1 = realize(f1)
     if f1 < len(live):
         b, _ = live.pop(f1)
         h.free(b)
@@ -356,11 +387,17 @@ def h_history(s0: int, s1: int, s2: int, f0: int, f1: int) -> bool:
     return True
 
 
-def h_wrapper(size: int, other: int) -> bool:
+WSIZES = (0, 1, 7, 8, 9, 40, 64, 100)
+
+
+def h_wrapper(code: int) -> bool:
     """
-    pre: 0 <= size <= 100 and 0 <= other <= 100
+    pre: 0 <= code < CODEMAX
     post: _
     """
+    nd = NDCode(code)
+    size = WSIZES[nd.draw(0, len(WSIZES) - 1)]
+    other = WSIZES[nd.draw(0, len(WSIZES) - 1)]
     install()
     bh.BufferWrapper._heap = bh.Heap(PAGE)
     w1 = bh.BufferWrapper(size)
